@@ -22,6 +22,7 @@ import (
 
 	c "verifharness/internal/common"
 	ns "verifharness/internal/netsim"
+	qs "verifharness/internal/qskel"
 )
 
 // Hist is a scenario plus its observations.
@@ -228,6 +229,40 @@ func caseTerm(h *Hist) string {
 		c.List(samples), c.List(valid), c.Bool(res.Converged))
 }
 
+// bestBlockTable ties the model's best_block (coq/C04/Spec.v) to the real
+// ChainService.BestBlock: a ChainService skeleton on real header stores with
+// block-header tip n and filter-header tip f <= n; rows (n, f, reported
+// height or -1, height of the header whose hash was reported or -1).
+func bestBlockTable(out string) []string {
+	var rows []string
+	dir, err := os.MkdirTemp(out, "bb")
+	if err != nil {
+		panic(err)
+	}
+	defer os.RemoveAll(dir)
+	r := rand.New(rand.NewSource(4))
+	for n := 0; n <= 5; n++ {
+		for f := 0; f <= n; f++ {
+			ch := qs.BuildChain(r, make([]qs.BlockSpec, n), f, nil)
+			d := filepath.Join(dir, fmt.Sprintf("t%d_%d", n, f))
+			qs.MakeTemplate(d, ch)
+			e := qs.Open(d, qs.EnvConfig{})
+			h, idx := int64(-1), int64(-1)
+			if bs, err := e.CS.BestBlock(); err == nil {
+				h = int64(bs.Height)
+				for i, x := range ch.Hashes {
+					if x == bs.Hash {
+						idx = int64(i)
+					}
+				}
+			}
+			e.Close()
+			rows = append(rows, fmt.Sprintf("(%d, %d, %s, %s)", n, f, c.Z(h), c.Z(idx)))
+		}
+	}
+	return rows
+}
+
 func main() {
 	a := c.ParseArgs()
 	rep := c.NewReport("C04", a)
@@ -287,7 +322,10 @@ func main() {
 	wg.Wait()
 
 	var sb strings.Builder
-	sb.WriteString("From Coq Require Import ZArith List Bool.\nFrom Verif Require Import C04net.Replay.\nImport ListNotations.\nOpen Scope Z_scope.\n")
+	sb.WriteString("From Coq Require Import ZArith List Bool.\nFrom Verif Require Import C04net.Replay.\nFrom Verif Require C04.Replay.\nImport ListNotations.\nOpen Scope Z_scope.\n")
+	bb := bestBlockTable(a.Out)
+	sb.WriteString("Definition bb_rows : list (Z * Z * Z * Z) := " + c.List(bb) + ".\n")
+	rep.Histogram["bestblock-table-rows"] = len(bb)
 	sb.WriteString("Definition cases : list (Z * ncase) := [\n")
 	sigs := c.Signatures{}
 	first := true
@@ -336,7 +374,7 @@ func main() {
 		}
 	}
 	sb.WriteString("].\n")
-	sb.WriteString("Definition R := Eval vm_compute in (run_cases cases).\nSet Printing Width 1000000.\nSet Printing Depth 1000000.\nPrint R.\n")
+	sb.WriteString("Definition R := Eval vm_compute in (run_cases cases ++ Verif.C04.Replay.run_bb bb_rows).\nSet Printing Width 1000000.\nSet Printing Depth 1000000.\nPrint R.\n")
 	c.WriteFile(filepath.Join(a.Out, "cases.v"), sb.String())
 	rep.Evaluations = len(hs)
 	rep.DistinctNontrivial = len(sigs)
